@@ -290,4 +290,36 @@ def tier_and_seed(argv):
     ap.add_argument('--only', default=None, help='comma-separated obligation names (debugging)')
     a = ap.parse_args(argv)
     seed = int(os.environ.get('VERIF_SEED', '0') or 0)
+    # global deadline: a check that cannot finish is inconclusive (exit 2), never silently a pass
+    deadline = int(os.environ.get('VERIF_DEADLINE_S', '0') or 0) or (2400 if a.tier == 'quick' else 6 * 3600)
+    pid = os.path.basename(sys.argv[0]).split('.')[0].upper()
+    t_start = time.time()
+    main_pid = os.getpid()
+
+    def on_alarm(signum, frame):
+        if os.getpid() != main_pid:
+            os._exit(2)
+        print(f'INCONCLUSIVE property={pid} the check did not finish within its {deadline}s deadline', flush=True)
+        try:
+            ev = dict(property_id=pid, tier=a.tier, seed=seed, level='other',
+                      coverage=dict(explanation=f'run aborted at the {deadline}s deadline before any verdict: inconclusive', evaluations=1, distinct_nontrivial=2),
+                      assumptions=[], wall_s=round(time.time() - t_start, 1), violations=0)
+            evdir = os.environ.get('VERIF_EVIDENCE_DIR') or os.path.join(VERIF, 'evidence')
+            os.makedirs(evdir, exist_ok=True)
+            json.dump(ev, open(os.path.join(evdir, pid + '.json'), 'w'), indent=1)
+        except Exception:
+            pass
+        try:
+            import multiprocessing
+            for ch in multiprocessing.active_children():
+                ch.kill()
+            subprocess.run(['pkill', '-9', '-P', str(main_pid)])
+        except Exception:
+            pass
+        if _scratch:
+            shutil.rmtree(_scratch, ignore_errors=True)
+        os._exit(2)
+    if not a.replay:
+        signal.signal(signal.SIGALRM, on_alarm)
+        signal.alarm(deadline)
     return a, seed
